@@ -1,0 +1,29 @@
+//go:build verif
+
+/*
+ * Verification exports for y.WaterMark: add-only helpers for the external verification
+ * harness. Compiled only with `-tags verif`.
+ */
+
+package y
+
+// VerifBarrier returns after the process goroutine has completely handled every mark that
+// was sent before the call: a waiter mark for index 0 is closed at once (doneUntil >= 0) and
+// changes no state, and the channel is FIFO.
+func (w *WaterMark) VerifBarrier() {
+	ch := make(chan struct{})
+	w.markCh <- mark{index: 0, waiter: ch}
+	<-ch
+}
+
+// VerifSendWaiter is the slow path of WaitForMark without the preceding DoneUntil check and
+// without blocking: it sends the (index, waiter) mark and returns the waiter channel. It stands
+// for a WaitForMark call whose check happened earlier (any interleaving with process).
+func (w *WaterMark) VerifSendWaiter(index uint64) chan struct{} {
+	waitCh := make(chan struct{})
+	w.markCh <- mark{index: index, waiter: waitCh}
+	return waitCh
+}
+
+// VerifChanLen is len(markCh).
+func (w *WaterMark) VerifChanLen() int { return len(w.markCh) }
